@@ -247,8 +247,10 @@ PROPS = {
     },
     "C28": {
         "title": "Custom sections are preserved and edited exactly",
-        "units": ["V6b_api2", "V12_sections"],
-        "obligations": ["V6b_api2.CustomSections.*", "V6b_api2.fn:CustomSections::*"],
+        "units": ["V6b_api2", "V12_sections", "V16_comp_emit"],
+        "obligations": ["V6b_api2.CustomSections.*", "V6b_api2.fn:CustomSections::*",
+                        # components: the custom-section arm of Component::encode_comp
+                        "V16_comp_emit.emit_custom_sections.*", "V16_comp_emit.fn:Component::emit_custom_sections", "V16_comp_emit.fn:CustomSections::get_by_id", "V16_comp_emit.fn:CustomSections::len"],
         "obligations_extra": V12_CUSTOM,
         "glue": V12_TRUST + ["parsing custom sections into the collection (name-section exclusion) and emitting them (order) happen in parse_internal / encode_internal: not under contract",
                  "CustomSections::get_section_data_mut (Cow::to_mut) and CustomSections::new (iterator adaptor chain) are not under contract"],
@@ -417,15 +419,18 @@ PROPS = {
     },
     "C27": {
         "title": "Component round trip preserves structure at any nesting depth",
-        "units": ["V10_parse"],
-        "obligations": ["V10_parse.track_nesting.*", "V10_parse.fn:Component::track_nesting", "V10_parse.parse_module_section.*", "V10_parse.fn:parse_module_section",
+        "units": ["V10_parse", "V16_comp_emit"],
+        "obligations": ["V16_comp_emit.emit_nested_components.*", "V16_comp_emit.fn:Component::emit_nested_components", "V16_comp_emit.emit_core_modules.*", "V16_comp_emit.fn:Component::emit_core_modules",
+                        "V16_comp_emit.emit_custom_sections.*", "V16_comp_emit.fn:Component::emit_custom_sections",
+                        "V10_parse.track_nesting.*", "V10_parse.fn:Component::track_nesting", "V10_parse.parse_module_section.*", "V10_parse.fn:parse_module_section",
                         "V10_parse.parse_component_section.*", "V10_parse.fn:Component::parse_component_section", "V10_parse.add_to_sections.*", "V10_parse.fn:Component::add_to_sections",
                         "V10_parse.parse_comp_*_section.*", "V10_parse.fn:Component::parse_comp_*_section", "V10_parse.fn:lemma_first_err"],
-        "glue": ["only the PARSE half: the nesting bookkeeping, the core-module / nested-component arms and the eight plain section arms of Component::parse_comp (imports, exports, core instances, core types, component types, component instances, aliases, canonical functions: the entries the section reader yields are stored in order behind those already there and the run-length record of the section order grows by exactly that many items of that kind; the collect chains are written as loops by rule R24, the readers are a TRUSTED sequence model). The start-section and custom / name-section arms and the whole of Component::encode_comp (section replay, 650 lines, conversions of external component-model types) are not under contract",
+        "glue": ["ENCODE half (V16): three arms of Component::encode_comp are under contract, each a region of it - nested components, core modules, custom sections: for an entry (num, kind) of the run-length record exactly num sections are written, one per stored item, in store order, from where the previous entry of that kind stopped (nested components / core modules: each an encoding made by the recursive call resp. Module::encode_internal on THAT item, assumed by contract; custom sections: own name and bytes), and the cursor of that kind moves on by num; the precondition 'the record never promises more items than are stored' is what the encoder asserts at run time. The outer loop that dispatches on the kind, the ten arms that convert section CONTENT (types, imports, exports, instances, aliases, canonical functions, start), and the name section are glue",
+                 "PARSE half: the nesting bookkeeping, the core-module / nested-component arms and the eight plain section arms of Component::parse_comp (imports, exports, core instances, core types, component types, component instances, aliases, canonical functions: the entries the section reader yields are stored in order behind those already there and the run-length record of the section order grows by exactly that many items of that kind; the collect chains are written as loops by rule R24, the readers are a TRUSTED sequence model). The start-section and custom / name-section arms and the whole of Component::encode_comp (section replay, 650 lines, conversions of external component-model types) are not under contract",
                  "that the payload stream of wasmparser's parse_all contains the payloads of nested modules / components inline, each closed by its own End, is a TRUSTED property of the reader",
                  "rule R16: the regions are cut out of parse_comp by text anchors; a `continue` in the head region is written as a `return` of the synthetic function"],
         "design_ref": "DESIGN.md §5 C27",
-        "level_text": "Partial (parse side): every plain section of a component is stored entry by entry, in order, and recorded in the run-length record of the section order; inside nested content every opener of a module / component deepens the tracked nesting by one and every End ends one level, at any depth, and such payloads are left to the recursive call; an own child deepens it by exactly one and is parsed from exactly its own byte range (or reported if that range leaves the input); the run-length record of the section order denotes the items in stream order. After fix F24 (content nested three levels deep was parsed twice).",
+        "level_text": "Partial (parse side, and the structural arms of the encode side: nested components, core modules and custom sections are written one section per stored item, in store order, as many as the section-order record says): every plain section of a component is stored entry by entry, in order, and recorded in the run-length record of the section order; inside nested content every opener of a module / component deepens the tracked nesting by one and every End ends one level, at any depth, and such payloads are left to the recursive call; an own child deepens it by exactly one and is parsed from exactly its own byte range (or reported if that range leaves the input); the run-length record of the section order denotes the items in stream order. After fix F24 (content nested three levels deep was parsed twice).",
     },
     "C23": {
         "title": "Side-effect report lists exactly the tagged additions and probes",
@@ -455,10 +460,10 @@ PROPS = {
                         "V11_emit.encode_function_body.stored_probe_lists_are_remapped_as_emitted", "V11_emit.fn:encode_function_body", "V11_emit.fn:lemma_body_records_after",
                         "V11_emit.encode_code_section.probe_records_of_every_live_local_function_with_code_as_emitted", "V11_emit.encode_code_section.no_other_records", "V11_emit.fn:Module::encode_code_section"],
         "glue": ["ASSUMED: #[derive(Hash, Eq)] of InjectType obeys the HashMap key model; #[derive(Clone)] of Injection, Tag, Types and InitExpr, String::clone, <[u8]>::to_vec and Tag::to_owned yield equal values; DataType::from(ValType) is an uninterpreted dt_of (its exactness: Kani K1); str::to_string is modelled by an uninterpreted str_owned",
-                 "the Type, Import, Export, Memory, Table, Element, Global, Data, Func and Probe records are decided (Global, Data, Func and Probe records through a view, because they hold Vecs: id / type / tag / initialiser resp. memory / offset / bytes / tag resp. function / position / mode / code / tag, with the indices inside in the index space of the encoded module). Func records are made when the function section is written, i.e. with the body as stored BEFORE the code section rewrites it (the caller's index space); Local records are never produced by the library. Probe records: a record is made for EVERY non-empty probe list, tagged or not (an untagged list gets the empty tag) - the property speaks of probes that carry a tag, for which this gives exactly one record with that tag; after- / replacement code placed on a function's final `end` is never emitted, and its record carries the code as stored, not rewritten (stated in the clause). That the function-level records are pulled exactly once per lowered function and the location records once per live local function is proved for the two regions (take_function_level_code of the lowering driver, encode_code_section); that encode_internal runs the lowering before the code section is glue",
+                 "the Type, Import, Export, Memory, Table, Element, Global, Data, Func and Probe records are decided (Global, Data, Func and Probe records through a view, because they hold Vecs: id / type / tag / initialiser resp. memory / offset / bytes / tag resp. function / position / mode / code / tag, with the indices inside in the index space of the encoded module). Func records are made when the function section is written, i.e. with the body as stored BEFORE the code section rewrites it (the caller's index space); Local records are never produced by the library. Probe records: a record is made for EVERY non-empty probe list, tagged or not (an untagged list gets the empty tag) - the property speaks of probes that carry a tag, for which this gives exactly one record with that tag; after- / replacement code placed on a function's final `end` is never emitted and (after fix F32) gets no record. That the function-level records are pulled exactly once per lowered function and the location records once per live local function is proved for the two regions (take_function_level_code of the lowering driver, encode_code_section); that encode_internal runs the lowering before the code section is glue",
                  "that items of the parsed module carry no tag (so get no record) is a property of parse_internal (it builds every item with tag None): read, not proved"],
         "design_ref": "DESIGN.md §5 C23",
-        "level_text": "Partial (eleven of twelve record kinds - Local records are never produced -; Func records: id, name, signature, flat locals, tag, body; Global records: id, type, tag and the initialiser as emitted; data records: bytes, tag and - active ones - memory and offset as emitted, after fix F31): when side effects are pulled, the report gains exactly one Type record per tagged type of the module (carrying that type; V7: adding a type never changes a stored type or its tag), exactly one Export record per live tagged export, one Import record per live tagged import, one Memory record per tagged local memory, one Table record per tagged table and one Element record per tagged element segment - with the item's own name / kind / index resp. module / name / type resp. id / limits and its tag - and no record for untagged or deleted ones; nothing else in the report changes in those three loops. After fix F25.",
+        "level_text": "Partial (eleven of twelve record kinds - Local records are never produced -; Func records: id, name, signature, flat locals, tag, body; Global records: id, type, tag and the initialiser as emitted; data records: bytes, tag and - active ones - memory and offset as emitted, after fix F31; probe records: function, position, mode, code as emitted, tag, after fix F32): when side effects are pulled, the report gains exactly one Type record per tagged type of the module (carrying that type; V7: adding a type never changes a stored type or its tag), exactly one Export record per live tagged export, one Import record per live tagged import, one Memory record per tagged local memory, one Table record per tagged table and one Element record per tagged element segment - with the item's own name / kind / index resp. module / name / type resp. id / limits and its tag - and no record for untagged or deleted ones; nothing else in the report changes in those three loops. After fix F25.",
     },
 }
 
